@@ -68,11 +68,11 @@ def units_of(base):
 
 
 CASES = {'upper': str.upper, 'capital': lambda w: w[:1].upper() + w[1:], 'alternate': lambda w: ''.join(c.upper() if i % 2 else c.lower() for i, c in enumerate(w))}
-BOUNDS = {'metamorphic': '%d base programs (all 18 statement kinds, every expression form) x { every alternative of every keyword / phrase slot occurrence (%d slots), 3 case styles for all keywords, one symbolic ignorable character (any blank other than line feed; any ignorable punctuation that is not a token) or a comment or two adjacent comments at every token boundary }' % (len(BASE), len(SLOTS)),
+BOUNDS = {'metamorphic': '%d base programs (all 18 statement kinds, every expression form) x { every alternative of every keyword / phrase slot occurrence (%d slots), 3 case styles for all keywords, one symbolic ignorable character (any blank other than line feed; any ignorable punctuation that is not a token) or a comment or two adjacent comments at every token boundary; CR LF line ends; a symbolic blank before the first token and a symbolic ignorable character after the last token of every line }' % (len(BASE), len(SLOTS)),
           'precedence': 'X op1 Y op2 Z for all 13 x 13 ordered operator pairs (worded and symbolic spellings), plus unary / list / subscript / call variants, against a reference precedence-climbing parser',
           'blocks': 'every control-flow shape of <= 2 (thorough 3) statements incl. break / continue / until (mirsym/progen.py) and every structure-only shape (say / if / if-else / while, nesting <= 3, blocks <= 3 statements) of <= 4 (thorough 5) statements, parsed by the VM-executed parser: statement kinds and block nesting of the parsed tree equal the shape; structure-only shapes of 5 (thorough 6) statements additionally with the natively run parser (plain exhaustive enumeration, listed separately in the evidence)',
           'literals': 'number literals: all texts d, d.d, .d, dd, d.dd, dd.d over digits {0,1,5,9} -> Python float; string literals of 0..=2 symbolic characters (any code point of ASCII ∪ R except the quote) -> exactly those characters'}
-OUTSIDE = ['chains mixing a worded `is` comparison with a symbolic comparison operator (the ladder of the statement does not settle them)', 'poetic literals (C11)', 'identifier case (C15)', 'programs longer than the base programs']
+OUTSIDE = ['a CR before the LF that ends a poetic string literal (kept in the literal by the implementation; C11 says `exact text up to the end of the line`)', 'chains mixing a worded `is` comparison with a symbolic comparison operator (the ladder of the statement does not settle them)', 'poetic literals (C11)', 'identifier case (C15)', 'programs longer than the base programs']
 ASSUMPTIONS = ['char predicates / case mapping exact on ASCII, table from the real std for R', 'str / CharIndices / Option / Vec / itertools models (DESIGN.md §2.4)', 'the spelling table SLOTS of this file is the reference for aliases and phrases']
 RULE = 'state = feasible path end of parse() on one spelling; symbolic noise characters / string-literal characters make the lexer fork under the solver; trees are compared structurally with positions erased'
 ERASE = ('SourceRange', 'SourceLocation')
@@ -237,6 +237,38 @@ def noise_sym(vm, name):
     if not hasattr(vm, 'cp_width'): vm.cp_width = {}
     vm.cp_width[c.get_id()] = 1
     return c
+
+
+def h_layout(vm, mir, name, kind):
+    """line-level layout: CR LF line ends, a symbolic blank (any ignorable white space) before the first token of a line, a symbolic
+    ignorable character after its last token"""
+    base = pick_unit(vm, name)
+    text0 = render(base)
+    if kind == 'crlf':
+        # a poetic string literal is `the exact text up to the end of the line` (C11): whether the CR of a CR LF line end belongs to it is
+        # not settled by the properties, so such lines keep their LF
+        text = '\n'.join(l if ' says ' in l else l + '\r' for l in text0.split('\n')[:-1]) + '\n'
+        text = text.replace('\r\n', '\r\n'); b = bstr_from_py(text)
+        d = lambda m: {'base': name, 'base_text': text0, 'text': text, 'layout': 'CR LF line ends'}
+    else:
+        lines = text0.split('\n')
+        cand = [i for i, l in enumerate(lines) if l and not any(w in l for w in (' says ', ' like '))]     # not inside poetic literal text
+        if not cand: raise Infeasible()
+        li = cand[vm.fork(len(cand), note='line')] if len(cand) > 1 else cand[0]
+        c = noise_sym(vm, 'noise') if kind == 'trailing' else None
+        if kind == 'indent':
+            c = z3.BitVec('indent', 32); vm.keep.append(c); vm.assume(z3.And(chartab.is_ascii_whitespace(c), c != 10))
+            if not hasattr(vm, 'cp_width'): vm.cp_width = {}
+            vm.cp_width[c.get_id()] = 1
+        cps = []
+        for i, l in enumerate(lines):
+            if i == li and kind == 'indent': cps.append(c)
+            cps += [ord(ch) for ch in l]
+            if i == li and kind == 'trailing': cps += [32, c]
+            if i < len(lines) - 1: cps.append(10)
+        b = BStr(Buf(cps, [1 if not isinstance(x, int) else utf8_len(x) for x in cps]))
+        d = lambda m: {'base': name, 'base_text': text0, 'text': ''.join(chr(x if isinstance(x, int) else m.eval(x, model_completion=True).as_long()) for x in cps), 'layout': kind}
+    return judge_same(vm, mir, text0, b, d, 'layout-' + kind)
 
 
 def h_noise(vm, mir, name, kind):
@@ -625,6 +657,9 @@ def jobs(ctx, tier):
         js.append(Job(f'case/{name}', h_case, (mir, name), witness=['judged'], str_mode='bounded', fuel=30_000_000, weight=20))
         for kind in ('char', 'char-glued', 'comment', 'two-comments') + (() if q else ('glued-comments', 'multi-line-comment')):
             js.append(Job(f'{kind}/{name}', h_noise, (mir, name, kind), witness=['judged'], str_mode='bounded', fuel=30_000_000, weight=60))
+    for name in BASE:
+        for kind in ('crlf', 'indent', 'trailing'):
+            js.append(Job(f'layout-{kind}/{name}', h_layout, (mir, name, kind), witness=['judged'], str_mode='bounded', fuel=30_000_000, weight=30))
     for k, ch in enumerate(chunks(expr_cases(), 16)):
         js.append(Job(f'precedence/{k}', h_expr, (mir, ch), witness=['judged'], str_mode='bounded', fuel=30_000_000, weight=10))
     for k, ch in enumerate(chunks(block_shapes(2 if q else 3), 8)):
